@@ -26,6 +26,8 @@ func checkC13(c *Ctx) {
 	c.Rule("C13-R6", "the lock flag of a cell is written only by LockCell (true) and UnlockCell (false); nothing else (invalidation, whole-cell copies) can unlock a cell behind the application's back, and the cells that survive Resize carry their flag into the new array")
 	c.Expect("C13-R5", 1)
 	c.Expect("C13-R6", 2)
+	c.Rule("C13-R9", "the force-dirty marker (lastMain = 0) is stored only by SetDirty, Invalidate, Resize and UnlockCell; every other mutator dirties a neighbour through SetDirty(x, y, true), whose bounds test keeps it inside the row")
+	c.Expect("C13-R9", 1)
 	c.Expect("C13-R1", 8)
 	c.Expect("C13-R2", 5)
 	c.Expect("C13-R3", 1)
@@ -52,6 +54,24 @@ func checkC13(c *Ctx) {
 	ws := payloadWriterCallers(p)
 	c.Check(len(ws) == 2 && ws[0] == "Beep" && ws[1] == "drawCell", "C13-R3", "writeString:callers", "-", fmt.Sprintf("callers of the raw writer: %v (not counted: wrappers that write one expanded capability %v)", ws, textEmitterNames(p)))
 	c13ListCompare(c, p)
+	{
+		allowed := map[string]bool{"SetDirty": true, "Invalidate": true, "Resize": true, "UnlockCell": true}
+		bad, n := "", 0
+		for _, fn := range p.modFns {
+			if fn.Pkg != p.Tcell {
+				continue
+			}
+			for _, st := range storesTo(fn, "tcell.cell", "lastMain") {
+				if k, isK := constInt(st.Val); isK && k == 0 {
+					n++
+					if !allowed[fn.Name()] {
+						bad += fn.Name() + " stores the marker itself at " + p.pos(st.Pos()) + "; "
+					}
+				}
+			}
+		}
+		c.Check(bad == "" && n >= 3, "C13-R9", "force-dirty-marker:writers", "-", fmt.Sprintf("%d stores of lastMain = 0 %s", n, bad))
+	}
 	checkCleanMarkCallers(c, p, "C13-R1")
 	c.asRule("C08-R2", "C13-R7", func() { c08Pairs(c, p, cbMethods(p)) })
 	c.asRule("C08-R3", "C13-R8", func() { c08Lock(c, p, cbMethods(p)) })
